@@ -386,6 +386,53 @@ func (fr *Frame) preludeCall(st *State, name string, fn *ssa.Function, args []Va
 			ex.trusted["countRecv: counting function axiomatised by empty range, one-step unfolding, frame over later receives (standard recursive definition)"] = true
 		}
 		return Val{T: Add(app, App("cnt_mark", SInt, hiArg))}, true
+	case "__sumSq", "__sumSqDiff":
+		// sumSq(v, n) = sum of v[i]^2 for 0 <= i < n; sumSqDiff(a, b, n) = sum of (a[i]-b[i])^2 for 0 <= i < n (indices
+		// beyond either slice contribute 0). Finite sum fsum(D, n) of an array of terms D, axiomatised by its recursive
+		// definition (empty sum; one-step unfolding at the upper end, for marked upper ends only so that the axiom
+		// cannot unfold for ever); D is itself a function of the slices, defined pointwise, so that two sums whose
+		// terms agree pointwise are equal by array extensionality and congruence -- no induction is assumed.
+		rs := ArraySort(SInt, SReal)
+		c, cs := ex.elemsComp(cc.Args[0].Type().Underlying().(*types.Slice).Elem())
+		if ex.ctx.SortOf(cc.Args[0].Type().Underlying().(*types.Slice).Elem()) != SReal {
+			ex.unsupported("sumSq on a non-float slice")
+		}
+		el := func(s *Term) *Term { return Select(ex.get(st, c, cs), SArr(s)) }
+		var d, n *Term
+		if !ex.fsumAx {
+			ex.fsumAx = true
+			ex.ctx.Fun("fsum", []string{rs, SInt}, SReal)
+			ex.ctx.Fun("fsum_mark", []string{SInt}, SReal)
+			ex.ctx.Fun("sqarr", []string{rs, SInt, SInt}, rs)
+			ex.ctx.Fun("sqdiffarr", []string{rs, SInt, SInt, rs, SInt, SInt}, rs)
+			D, N, I := V("D!fs", rs), V("n!fs", SInt), V("i!fs", SInt)
+			fs := App("fsum", SReal, D, N)
+			ex.axioms = append(ex.axioms, &Term{Op: "forall", Sort: SBool, Bound: []Bound{{"D!fs", rs}, {"n!fs", SInt}}, Pat: []*Term{fs},
+				Args: []*Term{Implies(Le(N, IntLit(0)), Eq(fs, RealLit("0.0")))}})
+			ex.axioms = append(ex.axioms, &Term{Op: "forall", Sort: SBool, Bound: []Bound{{"D!fs", rs}, {"n!fs", SInt}}, Pat: []*Term{fs, App("fsum_mark", SReal, N)},
+				Args: []*Term{Implies(Lt(IntLit(0), N), Eq(fs, App("+", SReal, App("fsum", SReal, D, Sub(N, IntLit(1))), Select(D, Sub(N, IntLit(1))))))}})
+			mk := App("fsum_mark", SReal, N)
+			ex.axioms = append(ex.axioms, &Term{Op: "forall", Sort: SBool, Bound: []Bound{{"n!fs", SInt}}, Pat: []*Term{mk}, Args: []*Term{Eq(mk, RealLit("0.0"))}})
+			E, O, L := V("E!fs", rs), V("o!fs", SInt), V("l!fs", SInt)
+			E2, O2, L2 := V("E2!fs", rs), V("o2!fs", SInt), V("l2!fs", SInt)
+			sa := App("sqarr", rs, E, O, L)
+			x := ex.slAt(E, O, I)
+			ex.axioms = append(ex.axioms, &Term{Op: "forall", Sort: SBool, Bound: []Bound{{"E!fs", rs}, {"o!fs", SInt}, {"l!fs", SInt}, {"i!fs", SInt}}, Pat: []*Term{Select(sa, I)},
+				Args: []*Term{Eq(Select(sa, I), Ite(And(Le(IntLit(0), I), Lt(I, L)), App("*", SReal, x, x), RealLit("0.0")))}})
+			sd := App("sqdiffarr", rs, E, O, L, E2, O2, L2)
+			y := App("-", SReal, ex.slAt(E, O, I), ex.slAt(E2, O2, I))
+			ex.axioms = append(ex.axioms, &Term{Op: "forall", Sort: SBool, Bound: []Bound{{"E!fs", rs}, {"o!fs", SInt}, {"l!fs", SInt}, {"E2!fs", rs}, {"o2!fs", SInt}, {"l2!fs", SInt}, {"i!fs", SInt}}, Pat: []*Term{Select(sd, I)},
+				Args: []*Term{Eq(Select(sd, I), Ite(And(Le(IntLit(0), I), Lt(I, L), Lt(I, L2)), App("*", SReal, y, y), RealLit("0.0")))}})
+			ex.trusted["sumSq/sumSqDiff: finite sum axiomatised by its recursive definition (empty sum, one-step unfolding); the summands are defined pointwise"] = true
+		}
+		if name == "__sumSq" {
+			d = App("sqarr", rs, el(args[0].T), SOff(args[0].T), SLen(args[0].T))
+			n = args[1].T
+		} else {
+			d = App("sqdiffarr", rs, el(args[0].T), SOff(args[0].T), SLen(args[0].T), el(args[1].T), SOff(args[1].T), SLen(args[1].T))
+			n = args[2].T
+		}
+		return Val{T: App("+", SReal, App("fsum", SReal, d, n), App("fsum_mark", SReal, n))}, true
 	case "__witness":
 		// always true; its only purpose is to put the term x into the formula so that the solver's
 		// E-matching has something to instantiate an existential's bound variable with
